@@ -14,12 +14,12 @@ SIM_TRUSTED = [
 ]
 
 
-def run_jobs(ctx, jobs, driver='Sim.lean'):
+def run_jobs(ctx, jobs, driver='Sim.lean', script='run_sim.py'):
     """jobs: list of (name, [profile, n]) or (name, ['replay', file]); returns per-job result dicts"""
     def one(j):
         name, args = j
         d = ctx.sub(name)
-        g = ctx.harness('run_sim.py', [d, ctx.seed * 1000 + jobs.index(j)] + args, timeout=1500)
+        g = ctx.harness(script, [d, ctx.seed * 1000 + jobs.index(j)] + args, timeout=1500)
         if g.returncode != 0:
             return dict(name=name, err='harness', detail=(g.stderr or g.stdout)[-3000:])
         p = fw.lean_driver(driver, os.path.join(d, 'ops.txt'), os.path.join(d, 'got.txt'), timeout=1500)
@@ -55,11 +55,12 @@ def summarise(rs, nontrivial, sample_key='spec'):
                 real_code_exceptions=sum(1 for e in allidx if e.get('exc')), discarded_too_big_or_slow=sum(r['timeouts'] for r in good),
                 boundary_randoms=sum(e.get('nspecial', 0) for e in allidx), handlers_fired=hs, tags=tags,
                 by_dynamics={k: sum(1 for e in allidx if e['spec'].get('dyn') == k) for k in ('sto', 'syn')},
+                by_kind={k: sum(1 for e in allidx if e['spec'].get('kind') == k) for k in {e['spec'].get('kind') for e in allidx} if k},
                 by_process={}, jobs=[r['name'] for r in good])
     for e in allidx:
         for p in e['spec'].get('procs', []):
             dist['by_process'][p['cls']] = dist['by_process'].get(p['cls'], 0) + 1
-    samples = [dict((k, v) for k, v in e['spec'].items() if k in ('procs', 'dyn', 'nodes', 'edges', 'maxT', 'ops')) for e in allidx[:2]]
+    samples = [dict((k, v) for k, v in e['spec'].items() if k not in ('oracles', 'specials', 'pspecial')) for e in allidx[:2]]
     stats = dict(evaluations=sum(r['lines'] for r in good), distinct_nontrivial=len(nt), samples=samples, distribution=dist, exhaustive=False)
     return errs, good, stats
 
@@ -68,8 +69,8 @@ def small(v):
     return len(json.dumps(v.get('spec')))
 
 
-def tie_with(ctx, jobs, nontrivial, sigfn=None, driver='Sim.lean'):
-    rs = run_jobs(ctx, jobs, driver)
+def tie_with(ctx, jobs, nontrivial, sigfn=None, driver='Sim.lean', script='run_sim.py'):
+    rs = run_jobs(ctx, jobs, driver, script)
     errs, good, stats = summarise(rs, nontrivial)
     if errs and errs[0]['err'] == 'driver':
         raise RuntimeError(f"model driver failed: {errs[0]['detail']}")
@@ -83,13 +84,13 @@ def tie_with(ctx, jobs, nontrivial, sigfn=None, driver='Sim.lean'):
     return dict(ok=True, stats=stats, violations=viol)
 
 
-def search_with(ctx, hint, jobs, sigfn=None, driver='Sim.lean'):
+def search_with(ctx, hint, jobs, sigfn=None, driver='Sim.lean', script='run_sim.py'):
     """more cases with the direct oracles on (they already ran beside stage 2); plus the case the correspondence broke on"""
     js = list(jobs)
     if hint and hint.get('spec'):
         p = os.path.join(ctx.run, 'hint.json'); json.dump([hint['spec']], open(p, 'w'))
         js.append(('hint', ['replay', p]))
-    rs = run_jobs(ctx, js, driver)
+    rs = run_jobs(ctx, js, driver, script)
     viol = sorted((v for r in rs if not r.get('err') for v in r['viol']), key=small)
     if viol:
         v = viol[0]
@@ -97,12 +98,12 @@ def search_with(ctx, hint, jobs, sigfn=None, driver='Sim.lean'):
     return dict(found=False, tried=sum(r.get('cases', 0) for r in rs if not r.get('err')))
 
 
-def replay_with(ctx, rep, driver='Sim.lean'):
+def replay_with(ctx, rep, driver='Sim.lean', script='run_sim.py'):
     r = rep.get('replay') or {}
     if not r.get('spec'):
         return dict(found=False, note='replay names a theorem/correspondence, no concrete input', detail=rep.get('no_longer_checks'))
     p = os.path.join(ctx.run, 'rep.json'); json.dump([r['spec']], open(p, 'w'))
-    rs = run_jobs(ctx, [('rep', ['replay', p])], driver)
+    rs = run_jobs(ctx, [('rep', ['replay', p])], driver, script)
     v = [v for x in rs if not x.get('err') for v in x['viol']]
     d = [x['diff'] for x in rs if not x.get('err') and x['diff']]
     return dict(found=bool(v), reason=v[0]['reason'] if v else None, correspondence_diff=d[0] if d else None)
